@@ -28,6 +28,7 @@ DROPPED = ["visibility qualifiers (pub, pub(crate), pub(super))",
            "debug_assert!(..) / debug_assert_eq!(..) / debug_assert_ne!(..) and log::*!(..) statements",
            "display-only statements `<v>.iter().for_each(|e| { crate::display_error(e); });`",
            "module-level `const` items of the source file that the extracted code refers to and the unit does not define are extracted with it",
+           "where a unit says pub_fields: every field of an extracted struct is made `pub`",
            "where a unit says foreach_rule: a statement `<it>.for_each(|<pat>| { <body> });` is rewritten to `for <pat> in <it> { <body> }` (the definition of Iterator::for_each; Verus takes no closure capturing `&mut` state)",
            "where a unit says closure_contracts: the parameter list of a named closure is replaced by an annotated one (types, named result, requires/ensures) and its body, untouched, is wrapped in braces (Verus does not infer closure postconditions)",
            "where a unit says msg_rule: message-text expressions (`format!(..)`, `\"literal\".into()`) are replaced by an opaque opaque_msg()"]
@@ -495,6 +496,10 @@ def extract_item(e, vac=False):
     item = rewrite(item, e.get("keep_pub", False))
     if e.get("foreach_rule"):
         item = foreach_rule(item)
+    if e.get("pub_fields"):
+        # struct item: every field is made `pub` (the unit's spec functions read them; a private field would make the
+        # datatype opaque to them) - also fields a later change adds
+        item = re.sub(r"(?m)^(\s+)(?!pub\b)(\w+)(\s*:\s)", r"\1pub \2\3", item)
     if e.get("abstract_fields") is not None:
         # struct item: every field type is abstracted to u64 (equality-preserving), except the listed fields
         keep = set(e["abstract_fields"])
